@@ -44,9 +44,11 @@ var c15PathCalls = []string{"open", "openat", "openat2", "stat", "lstat", "newfs
 	"unlink", "unlinkat", "rename", "renameat", "renameat2", "linkat", "symlinkat", "mkdirat", "mknodat", "chmod", "fchmodat", "execve", "execveat"}
 
 var c15Ptrs = []string{"!null", "!one", "!kern", "!unmapped", "!high", "!run=4095", "!run=4096", "!run=4097", "!run=8192", "!run=1", "!runz=4095", "!runz=4096", "!runz=5000",
-	"pendnz", "pend", "cross", "plain", "plain-long"}
+	"pendnz", "pend", "cross", "plain", "plain-long",
+	// well-formed strings naming hostile file-system shapes: the tracer resolves them itself while the tracee is stopped
+	"fs-loopself", "fs-loopdir", "fs-looptwo", "fs-chain46", "fs-dotlink60", "fs-updots"}
 
-var c15Multi = []string{"thread-vs-exit", "kill-sibling", "child-dies-in-parent-trap", "vfork-storm", "many-children", "self-stop", "thread-storm", "kill-self-thread", "orphan-sleeper", "orphan-daemon"}
+var c15Multi = []string{"thread-vs-exit", "kill-sibling", "child-dies-in-parent-trap", "vfork-storm", "many-children", "self-stop", "thread-storm", "kill-self-thread", "orphan-sleeper", "orphan-daemon", "kill-newborn", "kill-newborn"}
 
 func c15GenCase(rt *rapid.T) c15Case {
 	c := c15Case{Handler: rapid.SampledFrom([]string{"record", "record", "filehandler"}).Draw(rt, "handler"), BanMask: rapid.Uint32().Draw(rt, "banmask"),
@@ -134,6 +136,18 @@ func c15Run(c c15Case, root string, rec *vh.Recorder) error {
 			return s.Str(existing)
 		case "plain-long":
 			return s.Str(longPath)
+		case "fs-loopself":
+			return s.Str(root + "/loopself/x")
+		case "fs-loopdir":
+			return s.Str(root + "/loopdir")
+		case "fs-looptwo":
+			return s.Str("lx/../file")
+		case "fs-chain46":
+			return s.Str(root + "/c0")
+		case "fs-dotlink60":
+			return s.Str(root + "/" + strings.Repeat("dd/", 60) + "file")
+		case "fs-updots":
+			return s.Str(strings.Repeat("../", 1300) + strings.TrimPrefix(root, "/") + "/file")
 		}
 		return ptr
 	}
@@ -230,6 +244,16 @@ func c15Run(c c15Case, root string, rec *vh.Recorder) error {
 					s.Add("}")
 				}
 				s.Add(fmt.Sprintf("waitn:%d", 20+op.N))
+			case "kill-newborn":
+				// children SIGKILLed right after fork returns: they die around their very first (attach) stop
+				rounds := 100 + op.N*10
+				for i := 0; i < rounds; i++ {
+					a := s.Add("fork{")
+					s.Add("sleep:600000")
+					s.Add("}")
+					s.Sys(sysNr["kill"], probe.Ref(a), 9)
+				}
+				s.Add(fmt.Sprintf("waitn:%d", rounds))
 			case "orphan-sleeper":
 				// a descendant that outlives main: the run must still end when main ends
 				s.Add("fork{")
@@ -268,6 +292,21 @@ func c15Run(c c15Case, root string, rec *vh.Recorder) error {
 	}
 
 	_ = os.WriteFile(existing, []byte("x"), 0o644)
+	if _, err := os.Lstat(root + "/loopself"); err != nil {
+		os.Mkdir(root+"/d", 0o755)
+		os.Symlink("loopself", root+"/loopself")
+		os.Symlink("d/../loopdir", root+"/loopdir") // a cycle with an ordinary component in every round
+		os.Symlink("d/ly", root+"/lx")
+		os.Symlink("../lx", root+"/d/ly")
+		os.Symlink(".", root+"/dd")
+		for i := 0; i < 46; i++ {
+			t := fmt.Sprintf("c%d", i+1)
+			if i == 45 {
+				t = "file"
+			}
+			os.Symlink(t, fmt.Sprintf("%s/c%d", root, i))
+		}
+	}
 	allow := append([]string{"fork", "vfork", "clone", "kill", "rt_sigprocmask"}, probeBaseAllow...)
 	traced := append([]string{}, c02Calls...)
 	filter, err := buildFilter(allow, traced, libseccomp.ActionTrace)
@@ -303,7 +342,12 @@ func c15Run(c c15Case, root string, rec *vh.Recorder) error {
 	if tr.Hung {
 		states := taggedPids(tr.Tag)
 		killTagged(tr.Tag)
-		allStopped := len(states) > 0
+		allStopped := false
+		for _, op := range c.Ops {
+			if op.Kind == "multi" && op.Multi == "self-stop" {
+				allStopped = len(states) > 0
+			}
+		}
 		for _, st := range states {
 			if st != "T" && st != "t" {
 				allStopped = false
